@@ -160,7 +160,7 @@ type mediaBase struct {
 func securitySweep(bases []mediaBase) []apib.Spec {
 	var out []apib.Spec
 	for _, mb := range bases {
-		for _, defs := range [][]string{nil, {"k1"}, {"k1", "k2"}} {
+		for _, defs := range [][]string{nil, {"k1"}, {"k1", "K2"}} {
 			globals, opOpts := secAlphabet(defs)
 			for _, g := range globals {
 				base := apib.Spec{BasePath: "/", Consumes: mb.gc, Produces: mb.gp, SecurityDefs: secDefs(defs), Security: g}
@@ -266,7 +266,7 @@ func explore(r *report.R, st *stats, s apib.Spec, level int, sampleIt bool) {
 	served := false
 	for ri, reg := range regs {
 		rec := &recorder{}
-		api := buildAPI(doc, reg, rec)
+		api := buildAPI(doc, s, reg, rec)
 		vo := runValidate(api)
 		evals++
 		if anyNonEmpty(n, computeRegistered(reg)) {
@@ -385,17 +385,17 @@ func main() {
 		nilT, nilJ := [][]string{nil, {T}}, [][]string{nil, {J}}
 		noMedia := mediaBase{sh1: 3, sh2: 1}
 		sweeps = []sweep{
-			{"odd-media-types", oddSweep(), 1},
-			{"paths", pathSweep(), 1},
 			{"pairs-of-categories", mediaSweep(sub2, sub2, sub2, sub2, []int{0}, nil, nil, nil, []secCfg{noSec, k1Sec}), 2},
 			{"security-pairs-of-categories", securitySweep(bases[:1]), 2},
+			{"odd-media-types", oddSweep(), 1},
+			{"paths", pathSweep(), 1},
 			{"security", securitySweep([]mediaBase{bases[1], noMedia}), 1},
 			{"media-2types-one-operation", mediaSweep(sub2, sub2, sub2, sub2, []int{0, 1, 2, 3, 4}, nil, nil, nil, []secCfg{noSec}), 1},
 			{"media-2types-two-operations-full", mediaSweep(sub2, sub2, sub2, sub2, nil, [][2]int{{0, 1}}, sub2, sub2, []secCfg{noSec}), 1},
-			{"media-2types-two-operations", mediaSweep(sub2, sub2, sub2, sub2, nil, [][2]int{{0, 3}, {1, 3}, {0, 2}}, nilT, nilJ, []secCfg{noSec}), 1},
+			{"media-2types-two-operations", mediaSweep(sub2, sub2, sub2, sub2, nil, [][2]int{{0, 3}, {1, 3}}, nilT, nilJ, []secCfg{noSec}), 1},
 			{"media-2types-secured", mediaSweep(sub2, sub2, sub2, sub2, []int{0, 1}, [][2]int{{0, 1}}, nilT, nilJ, []secCfg{k1Sec}), 1},
-			{"consumes-3types", mediaSweep(sub3, append(onlyJ, nil), sub3, none, []int{0, 1, 2, 3}, [][2]int{{0, 1}}, sub3, none, []secCfg{noSec}), 1},
-			{"produces-3types", mediaSweep(append(onlyJ, nil), sub3, none, sub3, []int{0, 1, 2, 3}, [][2]int{{0, 1}}, none, sub3, []secCfg{noSec}), 1},
+			{"consumes-3types", mediaSweep(sub3, append(onlyJ, nil), sub3, none, []int{0, 1, 2}, [][2]int{{0, 1}}, sub3, none, []secCfg{noSec}), 1},
+			{"produces-3types", mediaSweep(append(onlyJ, nil), sub3, none, sub3, []int{0, 1, 3}, [][2]int{{0, 1}}, none, sub3, []secCfg{noSec}), 1},
 		}
 	} else {
 		nilT, nilJ := [][]string{nil, {T}}, [][]string{nil, {J}}
@@ -405,8 +405,9 @@ func main() {
 			{"security", securitySweep(bases[:1]), 1},
 			{"consumes-3types", mediaSweep(sub3, onlyJ, sub3, none, []int{0}, nil, nil, nil, []secCfg{noSec}), 1},
 			{"produces-3types", mediaSweep(onlyJ, sub3, none, sub3, []int{1}, nil, nil, nil, []secCfg{noSec}), 1},
-			{"media-2types-one-operation", mediaSweep(sub2, sub2, sub2, sub2, []int{0, 1, 3}, nil, nil, nil, []secCfg{noSec}), 1},
-			{"media-2types-two-operations", mediaSweep(sub2, sub2, sub2, nilT, nil, [][2]int{{0, 1}}, nilT, nilJ, []secCfg{noSec}), 1},
+			{"media-2types-one-operation", mediaSweep(sub2, sub2, sub2, sub2, []int{0, 1}, nil, nil, nil, []secCfg{noSec}), 1},
+			{"media-2types-one-operation-204", mediaSweep(sub2, sub2, none, sub2, []int{3}, nil, nil, nil, []secCfg{noSec}), 1},
+			{"media-2types-two-operations", mediaSweep(sub2, sub2, nilT, nilT, nil, [][2]int{{0, 1}}, nilT, nilJ, []secCfg{noSec}), 1},
 		}
 	}
 	r.Set("media_types", M3)
